@@ -185,6 +185,39 @@ def gen_tree(rng, tool, nfiles=None):
     return tree, args
 
 
+def tree_of_kinds(kinds, tool="tidy-imports"):
+    """Deterministic tree for a sequence of argument kinds:
+    C/U/X/T/B/E regular file with that content; LC/LU/LX symlink to such a file (the target is not an
+    argument); G dangling symlink; M missing; D directory holding a.py (C), k.py -> ../t (C), .h.py, c.txt."""
+    tree, args = {}, []
+    for i, k in enumerate(kinds):
+        m = 200 + 10 * i
+        if k in ("C", "U", "X", "T", "B", "E"):
+            tree["f%d.py" % i] = ["file", content(k, m)]
+            args.append("f%d.py" % i)
+        elif k in ("LC", "LU", "LX", "LT"):
+            tree["t%d.py" % i] = ["file", content(k[1], m)]
+            tree["l%d.py" % i] = ["link", "t%d.py" % i]
+            args.append("l%d.py" % i)
+        elif k == "G":
+            tree["g%d.py" % i] = ["link", "nowhere%d.py" % i]
+            args.append("g%d.py" % i)
+        elif k == "M":
+            args.append("m%d.py" % i)
+        elif k == "D":
+            d = "d%d" % i
+            tree[d] = ["dir"]
+            tree[d + "/a.py"] = ["file", content("C", m + 1)]
+            tree["t%d.py" % i] = ["file", content("C", m + 2)]
+            tree[d + "/k.py"] = ["link", "../t%d.py" % i]
+            tree[d + "/.h.py"] = ["file", content("C", m + 3)]
+            tree[d + "/c.txt"] = ["file", content("C", m + 4)]
+            args.append(d)
+        else:
+            raise ValueError(k)
+    return tree, args
+
+
 def gen_case(rng):
     tool, extra = rng.choice(TOOLS + [TOOLS[0]])
     opts = gen_opts(rng)
